@@ -30,6 +30,37 @@ type c08Enc struct {
 	NoWrite bool  `json:"noWrite"`
 	// Twin: a second armor writer and a second armor reader are in use around this one
 	Twin bool `json:"twin,omitempty"`
+	// Copy: the bytes reach the writer through io.Copy(w, source); the source has no WriteTo and hands out the
+	// segments one per Read, the last one together with io.EOF ("data-eof") or before a separate (0, io.EOF) ("then-eof")
+	Copy string `json:"copy,omitempty"`
+}
+
+type c08SegReader struct {
+	data    []byte
+	segs    []int
+	withEOF bool
+}
+
+func (r *c08SegReader) Read(p []byte) (int, error) {
+	if len(r.data) == 0 {
+		return 0, io.EOF
+	}
+	n := len(r.data)
+	if len(r.segs) > 0 {
+		if r.segs[0] > 0 && r.segs[0] < n {
+			n = r.segs[0]
+		}
+		r.segs = r.segs[1:]
+	}
+	if n > len(p) {
+		n = len(p)
+	}
+	copy(p, r.data[:n])
+	r.data = r.data[n:]
+	if len(r.data) == 0 && r.withEOF {
+		return n, io.EOF
+	}
+	return n, nil
 }
 
 func c08CheckEncode(c c08Enc, st *stats.Run) error {
@@ -49,7 +80,11 @@ func c08CheckEncode(c c08Enc, st *stats.Run) error {
 		got2 = b[:n]
 	}
 	w := armor.NewWriter(&out)
-	if !c.NoWrite {
+	if !c.NoWrite && c.Copy != "" {
+		if n, err := io.Copy(w, &c08SegReader{data: data, segs: append([]int{}, c.Segs...), withEOF: c.Copy == "data-eof"}); err != nil || n != int64(len(data)) {
+			return pbt.Failf("C08/write-error", "io.Copy into the armor writer took %d of %d bytes: %v", n, len(data), err)
+		}
+	} else if !c.NoWrite {
 		if n, err := writeSegs(w, data, c.Segs); err != nil {
 			return pbt.Failf("C08/write-error", "armor Write failed after %d bytes: %v", n, err)
 		}
@@ -71,7 +106,7 @@ func c08CheckEncode(c c08Enc, st *stats.Run) error {
 		}
 	}
 	nwrites := len(c.Segs) + 1
-	st.Case((len(data) > 0 && len(c.Segs) >= 1) || c.NoWrite, stats.HashJSON(c), "enc", fmt.Sprintf("enc:noWrite=%v", c.NoWrite), fmt.Sprintf("enc:len%%48=%d", classMod48(len(data))), fmt.Sprintf("enc:writes=%d", min(nwrites, 4)), fmt.Sprintf("enc:twin=%v", c.Twin))
+	st.Case((len(data) > 0 && len(c.Segs) >= 1) || c.NoWrite, stats.HashJSON(c), "enc", fmt.Sprintf("enc:noWrite=%v", c.NoWrite), fmt.Sprintf("enc:len%%48=%d", classMod48(len(data))), fmt.Sprintf("enc:writes=%d", min(nwrites, 4)), fmt.Sprintf("enc:twin=%v", c.Twin), "enc:io.Copy="+c.Copy)
 	st.Sample(fmt.Sprintf("encode/noWrite=%v", c.NoWrite), map[string]any{"case": c, "output": trunc(text)})
 	// a second Close must not silently add to the text (whether it reports an
 	// error or is a no-op is the implementation's choice)
@@ -490,8 +525,12 @@ func TestC08(t *testing.T) {
 				yield(c08Enc{Len: l, Seed: uint64(l), Segs: segs})
 				n++
 			}
+			for _, cp := range []string{"data-eof", "then-eof"} {
+				yield(c08Enc{Len: l, Seed: uint64(l), Segs: [][]int{nil, {1}, {48}, {47, 2}}[l%4], Copy: cp})
+				n++
+			}
 		}
-		s.St.Exhaust("armoring every length 0..200 x 9 write segmentations, and Close without Write", int64(n+1))
+		s.St.Exhaust("armoring every length 0..200 x 9 write segmentations and x 2 io.Copy sources (last bytes with or before io.EOF), and Close without Write", int64(n+1))
 	}, enc)
 	pbt.Each(s, "encode", func(yield func(c08Retry)) {
 		n := 0
@@ -521,6 +560,9 @@ func TestC08(t *testing.T) {
 			c.Segs = rapid.SliceOfN(rapid.SampledFrom([]int{0, 1, 2, 3, 47, 48, 49, 64, 100, 1000}), 1, 8).Draw(t, "segs")
 		}
 		c.Twin = rapid.IntRange(0, 2).Draw(t, "twin") == 0
+		if !c.NoWrite {
+			c.Copy = rapid.SampledFrom([]string{"", "", "data-eof", "then-eof"}).Draw(t, "copy")
+		}
 		return c
 	}, enc)
 
